@@ -301,8 +301,13 @@ func c07Manifest(r *vRand, seed uint64, i int, now time.Time) string {
 			if r.Chance(1, 12) {
 				b.WriteString(ws[r.Intn(len(ws))])
 			}
-			h := fmt.Sprintf("%x", md5.Sum([]byte(fmt.Sprintf("c07m-%d-%d-%d", seed, i, blk))))
-			blk++
+			hb := blk
+			if blk > 0 && r.Chance(1, 4) {
+				hb = r.Intn(blk) // the same block again, usually written with other hints
+			} else {
+				blk++
+			}
+			h := fmt.Sprintf("%x", md5.Sum([]byte(fmt.Sprintf("c07m-%d-%d-%d", seed, i, hb))))
 			switch r.Intn(14) {
 			case 0:
 				h = strings.ToUpper(h) // not a block token for SignManifest
